@@ -324,7 +324,7 @@ def work(item: Dict[str, Any]) -> Acc:
             acc.case(key=good, nontrivial=True, sample=({'expressions': good, 'sites': SITES} if acc.evals % 50 == 0 else None), classes=['in-situ'])
             acc.notes['site_renderings_compared'] = acc.notes.get('site_renderings_compared', 0) + n
             judge(ID, acc, {'kind': 'sites', 'exprs': good}, d)
-        hyp_run(acc, st.lists(exprs.st_expr(3), min_size=1, max_size=6), body_s, item['n'], item['seed'])
+        hyp_run(acc, st.lists(st.one_of(exprs.st_expr(3), exprs.st_expr(3), st.sampled_from(ANN_EXPRS)), min_size=1, max_size=6), body_s, item['n'], item['seed'])
         return acc
     elif kind == 'regex':
         def body_r(c):
@@ -363,11 +363,15 @@ def replay(case: Dict[str, Any]) -> List[Tuple[str, str]]:
 # in-situ: the same oracle at every place where pydoctor shows an expression (not only colorize_pyval itself)
 # ====================================================================================================================
 
+# annotation-flavoured expressions: forward references (strings) are shown unquoted, the arguments of Literal[...] are values and
+# stay strings - however the typing module is spelled
+ANN_EXPRS = ["Literal['r', 'w']", "typing.Literal['int', 'str']", 't.Literal["r", "w"]', "te.Literal['None', 'x']", "typing_extensions.Literal['a']", "t.Optional['int']", "List['G']", "t.Dict[str, 'int']",
+             "'int'", "'List[int]'", "t.Union['a', t.Literal['b', 1]]", "Optional[Literal['x']]", "t.List[t.Literal['a.b', 'c']]", "Dict['str', Literal[1, 'one']]", "'t.Literal[\"q\"]'"]
 SITES = ['constant', 'default', 'annotation-param', 'annotation-return', 'annotation-var', 'decorator', 'base-subscript', 'alias']
 
 
 def site_module(exprs_: List[str]) -> str:
-    lines = ['import re', 'from typing import Union, Generic, TypeVar', 'T = TypeVar("T")', 'def deco(*a, **k):', '    return lambda f: f', 'class G(Generic[T]):', '    pass']
+    lines = ['import re', 'import typing', 'import typing as t', 'import typing_extensions as te', 'from typing import Union, Generic, TypeVar, Literal, List, Optional, Dict', 'T = TypeVar("T")', 'def deco(*a, **k):', '    return lambda f: f', 'class G(Generic[T]):', '    pass']
     for i, e in enumerate(exprs_):
         lines += ['CONST_%d = %s' % (i, e),
                   'def fd_%d(p=%s):' % (i, e), '    pass',
@@ -422,7 +426,8 @@ def check_sites(exprs_: List[str]) -> Tuple[List[Tuple[str, str]], int]:
             if c is not None:  # a bare (dotted) name on the right-hand side is an alias, not a constant
                 row = _flat_text(epydoc2stan.format_constant_value(c))
                 shown = row[len('Value'):] if row.startswith('Value') else row
-                cmp('constant', e, shown.strip('\n'), i)
+                # (a value that is a type expression makes the variable a type alias: forward references are shown unquoted)
+                cmp('alias' if c.kind is model.DocumentableKind.TYPE_ALIAS else 'constant', e, shown.strip('\n'), i)
             fd = s.allobjects['m.fd_%d' % i]
             sig = _flat_text(pages.format_signature(fd))
             d = ast.parse('def f%s: pass' % sig).body[0].args.defaults[0]
